@@ -21,6 +21,12 @@ CLAIMED["C06"] = ("emitted code judged (S) by reference models of Python's bindi
     "interpreter itself (compile, exec, inspect.signature, class __dict__, real ArgumentParser) over a solver-enumerated finite value domain", "DESIGN.md#c06")
 CLAIMED["C13"] = ("interference: frame conditions per emitter with symbolic content, plus every emitter sequence of length <=4 on one shared IR "
     "(sequence chosen by the solver, exhaustive) compared against fresh copies", "DESIGN.md#c13")
+CLAIMED["C07"] = ("parse.function / parse.class_(merge __init__) on definitions built as ast objects whose configuration (defaults count, keyword-only "
+    "mask, **kw, self/cls, style, documented subset and order) is chosen and exhausted by the solver and whose default values are symbolic ints; "
+    "judged by a reference model of Python's signature binding", "DESIGN.md#c07")
+CLAIMED["C12"] = ("determinism: set-iteration order as solver variables (ordered-set shim over OrderedDict/set/frozenset in every doctrans module) on "
+    "partially documented definitions, frame condition on module globals / function attributes with symbolic content, f-after-g for every pair; "
+    "plus a source scan for un-interceptable set iteration and a PYTHONHASHSEED sweep as process-level cross-check", "DESIGN.md#c12")
 NA = {
     "C19": "gen: every data path crosses importlib / inspect.getsource / compile+exec / file output, no symbolic data path is left; what remains is enumeration of a few concrete configurations, which is not this technique (DESIGN.md §C19)",
 }
